@@ -1,6 +1,7 @@
 package main
 
 import (
+	"bufio"
 	"bytes"
 	"encoding/json"
 	"encoding/xml"
@@ -33,6 +34,15 @@ import (
 //	                          one bind of the two-field struct bT through the named entry point; the fields
 //	                          <mclass> <jdec> <xdec> <mpv> carry the verdicts of the stdlib parameters of the model
 //	                          (mime.ParseMediaType, encoding/json, encoding/xml, mime/multipart) on this input.
+//	bindc <carrier> <api> ... the same bind (same 11 fields after the carrier), but r.Body is delivered the way
+//	                          <carrier> says: rd = a plain reader (what `bind` uses), nobody = http.NoBody (what a
+//	                          server hands over for a request without a body; needs an empty <body>), nop =
+//	                          io.NopCloser(*bytes.Reader), newreq = what http.NewRequest/httptest.NewRequest make of
+//	                          a *bytes.Reader (http.NoBody when it is empty), wire = the request is written out and
+//	                          parsed back by http.ReadRequest (what a handler really gets; http.NoBody when the body
+//	                          is empty). The model has no carrier: binding sees the BYTES of the body only, a request
+//	                          without a body is a request with an empty body. r.Body == nil is outside the domain
+//	                          (net/http never hands that to a handler; the unchanged JSON/XML branches panic on it).
 //	esc/unesc/pq/enc          net/url percent-encoding against the model's codec.
 //	rt <format> <api> <type> <value-id>
 //	                          SAMPLED round trip of a representative struct value through a third-party codec
@@ -112,6 +122,73 @@ func mkReq(method, ctype, rawq, body string, hdr [][2]string) (*http.Request, *t
 		r.Header[kv[0]] = append(r.Header[kv[0]], kv[1])
 	}
 	return r, tb
+}
+
+var bodyCarriers = []string{"rd", "nobody", "nop", "newreq", "wire"}
+
+// mkReqC: mkReq with r.Body delivered by the named carrier; ok = false when this request cannot travel that
+// way unchanged (a non-empty body as http.NoBody; a method / query / header the wire format does not preserve).
+func mkReqC(carrier, method, ctype, rawq, body string, hdr [][2]string) (r *http.Request, ok bool) {
+	r, _ = mkReq(method, ctype, rawq, body, hdr)
+	switch carrier {
+	case "rd":
+	case "nobody":
+		if body != "" {
+			return nil, false
+		}
+		r.Body = http.NoBody
+	case "nop":
+		r.Body = io.NopCloser(bytes.NewReader([]byte(body)))
+	case "newreq":
+		nr, err := http.NewRequest("POST", "http://example.test/p", bytes.NewReader([]byte(body)))
+		if err != nil {
+			return nil, false
+		}
+		r.Body, r.GetBody, r.ContentLength = nr.Body, nr.GetBody, nr.ContentLength
+	case "wire":
+		if len(hdr) != 0 {
+			return nil, false
+		}
+		r.Header["User-Agent"] = []string{""} // not sent
+		if body == "" {
+			r.Body = http.NoBody // the client sends no body ("Content-Length: 0" for a body method), not an empty chunked one
+		}
+		var b bytes.Buffer
+		if err := r.Write(&b); err != nil {
+			return nil, false
+		}
+		rr, err := http.ReadRequest(bufio.NewReader(&b))
+		if err != nil || b.Len() != 0 {
+			return nil, false
+		}
+		var wantCT []string
+		if ctype != "" {
+			wantCT = []string{ctype}
+		}
+		if rr.Method != method || rr.URL == nil || rr.URL.Path != "/p" || rr.URL.RawQuery != rawq || rr.URL.ForceQuery ||
+			!reflect.DeepEqual(rr.Header["Content-Type"], wantCT) || rr.ContentLength != int64(len(body)) ||
+			len(rr.TransferEncoding) != 0 || rr.Body == nil || (body == "") != (rr.Body == http.NoBody) {
+			return nil, false
+		}
+		for k := range rr.Header {
+			if k != "Content-Type" && k != "Content-Length" {
+				return nil, false
+			}
+		}
+		r = rr
+	default:
+		return nil, false
+	}
+	return r, true
+}
+
+// carrierOK: may this bind travel by this carrier (decided from the inputs and net/http only, never from rux)
+func carrierOK(carrier, api, method, ctype, rawq, body string, hdr [][2]string) bool {
+	if strings.HasPrefix(api, "header") && carrier == "wire" {
+		return false // a parsed request has header fields of its own (Content-Length)
+	}
+	_, ok := mkReqC(carrier, method, ctype, rawq, body, hdr)
+	return ok
 }
 
 func mkCtx(r *http.Request) *rux.Context {
@@ -231,10 +308,19 @@ func bindLine(api, val, method, ctype, rawq, body string, hdr [][2]string) strin
 		jsonVerdict(body), xmlVerdict(body), multipartVerdict(ctype, body)}, " ")
 }
 
+// bindLineC: the bind travels by the given carrier (a plain bind when that is not possible)
+func bindLineC(carrier, api, val, method, ctype, rawq, body string, hdr [][2]string) string {
+	line := bindLine(api, val, method, ctype, rawq, body, hdr)
+	if carrier == "rd" || !carrierOK(carrier, api, method, ctype, rawq, body, hdr) {
+		return line
+	}
+	return "bindc " + carrier + " " + strings.TrimPrefix(line, "bind ")
+}
+
 /**************** running one bind ****************/
 
 // callBind runs one entry point on a fresh request and returns the canonical answer.
-func callBind(api, method, ctype, rawq, body string, hdr [][2]string, t *bT) (ans string) {
+func callBind(carrier, api, method, ctype, rawq, body string, hdr [][2]string, t *bT) (ans string) {
 	must := api == "pkgmust" || strings.HasSuffix(api, ".must")
 	defer func() {
 		if v := recover(); v != nil {
@@ -247,7 +333,10 @@ func callBind(api, method, ctype, rawq, body string, hdr [][2]string, t *bT) (an
 			ans = panicClass(v)
 		}
 	}()
-	r, _ := mkReq(method, ctype, rawq, body, hdr)
+	r, ok := mkReqC(carrier, method, ctype, rawq, body, hdr)
+	if !ok {
+		return "bad-op"
+	}
 	var err error
 	binderOf := func(name string) binding.Binder {
 		switch name {
@@ -332,17 +421,17 @@ func callBind(api, method, ctype, rawq, body string, hdr [][2]string, t *bT) (an
 	return "ok " + hx(t.V) + " " + hx(t.Q)
 }
 
-func runBind(f []string) (ans string, oracle []string) {
+func runBind(carrier string, f []string) (ans string, oracle []string) {
 	api, val := f[1], f[2]
 	method, ctype, rawq, body := mustUnhx(f[3]), mustUnhx(f[4]), mustUnhx(f[6]), mustUnhx(f[7])
 	hdr := parsePairList(f[8])
 	defer binding.ResetValidator()
 	cv := setValidator(val)
 	t := &bT{}
-	ans = callBind(api, method, ctype, rawq, body, hdr, t)
+	ans = callBind(carrier, api, method, ctype, rawq, body, hdr, t)
 	ok := strings.HasPrefix(ans, "ok ")
 	if strings.HasPrefix(ans, "panic:") && ans != "panic:err" {
-		oracle = append(oracle, fmt.Sprintf("C18 never a panic: %s through %s (method %q, Content-Type %q, query %q, body %q)", ans, api, method, ctype, rawq, body))
+		oracle = append(oracle, fmt.Sprintf("C18 never a panic: %s through %s (method %q, Content-Type %q, query %q, body %q, body carrier %s)", ans, api, method, ctype, rawq, body, carrier))
 	}
 	if ok && val != "off" && !bTRule(t) {
 		oracle = append(oracle, fmt.Sprintf("C18 validated: bind through %s succeeded with V=%q, which violates the struct's rules (validator %s)", api, t.V, val))
@@ -849,7 +938,14 @@ func (bindEngine) Run(ops []string) (ans []string, oracle []string) {
 				if len(f) != 12 {
 					return "bad-op"
 				}
-				r, oo := runBind(f)
+				r, oo := runBind("rd", f)
+				o = append(o, oo...)
+				return r
+			case "bindc":
+				if len(f) != 13 {
+					return "bad-op"
+				}
+				r, oo := runBind(f[1], f[1:])
 				o = append(o, oo...)
 				return r
 			case "esc":
@@ -913,6 +1009,10 @@ func probeOps(method, ctype, val string) []string {
 		bindLine("auto", val, method, ctype, q, `{"v":"C"}`, nil),
 		bindLine("auto", val, method, ctype, q, `<T><v>D</v></T>`, nil),
 		bindLine("auto", val, method, ctype, q, "", nil),
+		// no body at all: http.NoBody directly, and what http.ReadRequest hands over (when the method and the
+		// header survive the wire; a plain bind otherwise)
+		bindLineC("nobody", "auto", val, method, ctype, q, "", nil),
+		bindLineC("wire", "auto", val, method, ctype, q, "", nil),
 	}
 }
 
@@ -969,6 +1069,34 @@ func (bindEngine) Corpus() []Case {
 		bindLine("header.bind", "std", "GET", "", "", "", [][2]string{{"v", "H"}, {"q", "HQ"}}),
 		bindLine("header.bind", "std", "GET", "text/plain", "", "", [][2]string{{"v", "H"}}),
 		bindLine("header.vals", "cnt", "GET", "", "", "", [][2]string{{"v", "H"}, {"X-Other", "1"}}),
+	)
+	// a body method WITHOUT a body (http.NoBody: Content-Length 0 on a server, NewRequest(.., nil)) is still a body
+	// method: the source is chosen by the Content-Type, the (empty) body is read, the URL query is not. Only the
+	// single binders that read the query by definition (Form.Bind merges, Query.Bind) see v=A.
+	for _, m := range []string{"POST", "PUT", "PATCH", "GET", "DELETE", "post"} {
+		var ops []string
+		for _, ct := range []string{ue, "multipart/form-data; boundary=XB", "application/json", "application/json; charset=utf-8", "text/xml",
+			"application/xml", "text/plain", ""} {
+			for _, carrier := range []string{"nobody", "newreq", "wire", "nop"} {
+				ops = append(ops, bindLineC(carrier, "auto", "std", m, ct, "v=A&q=Q", "", nil))
+			}
+			ops = append(ops, bindLineC("nobody", "ctxbind", "off", m, ct, "v=A&q=Q", "", nil), bindLineC("nobody", "pkgmust", "cnt", m, ct, "v=A", "", nil))
+		}
+		add("nobody", ops...)
+	}
+	add("nobody",
+		bindLineC("nobody", "form.bind", "std", "POST", ue, "v=A&q=Q", "", nil),
+		bindLineC("nobody", "form.ctx", "std", "POST", "application/json", "v=A", "", nil),
+		bindLineC("nobody", "query.bind", "std", "POST", "application/json", "v=A", "", nil),
+		bindLineC("nobody", "json.bind", "std", "POST", "application/json", "v=A", "", nil),
+		bindLineC("nobody", "xml.ctx", "off", "PUT", "text/xml", "v=A", "", nil),
+		bindLineC("nobody", "json.must", "std", "PATCH", "", "v=A", "", nil),
+		bindLineC("nobody", "auto", "std", "POST", ue, "v=A&q=%zz", "", nil), // ParseForm still fails on the malformed URL query
+		bindLineC("nobody", "auto", "off", "POST", ue, "v=A", "", nil),
+		bindLineC("wire", "auto", "std", "POST", "application/json", "v=A", `{"v":"C"}`, nil),
+		bindLineC("wire", "auto", "std", "PUT", ue, "v=A", "v=B&q=1", nil),
+		bindLineC("newreq", "auto", "std", "PATCH", "text/xml", "v=A", `<T><v>D</v></T>`, nil),
+		bindLineC("nop", "auto", "std", "POST", "multipart/form-data; boundary=XB", "v=A", multipartBody("XB", [][2]string{{"v", "M"}}), nil),
 	)
 	// validation: no values at all for the chosen source, a rule violation, validator off, exactly one call
 	for _, val := range []string{"std", "cnt", "off"} {
@@ -1267,10 +1395,38 @@ func genHeaders(r *Rand) [][2]string {
 }
 
 func (bindEngine) Gen(r *Rand, tier string) Case {
-	switch x := r.Intn(20); {
+	switch x := r.Intn(22); {
+	case x >= 20: // a body method with an empty body x every way of carrying "no body" x a query string that would bind
+		m := r.Pick([]string{"POST", "PUT", "PATCH"})
+		if r.Chance(1, 8) {
+			m = genMethod(r)
+		}
+		var ops []string
+		for i, n := 0, r.Range(1, 3); i < n; i++ {
+			ct := genCType(r)
+			if r.Chance(1, 2) {
+				ct = r.Pick(baseTypes[:10]) + r.Pick(ctParams[:7])
+			}
+			q := r.Pick([]string{"v=A&q=Q", "v=A", "q=Q&v=A", "v=bad", "q=Q"})
+			if r.Chance(1, 4) {
+				q = genQueryString(r)
+			}
+			val := genValidator(r)
+			for _, carrier := range bodyCarriers {
+				api := "auto"
+				if r.Chance(1, 4) {
+					api = r.Pick(autoApis)
+				} else if r.Chance(1, 8) {
+					api = r.Pick(oneApis)
+				}
+				ops = append(ops, bindLineC(carrier, api, val, m, ct, q, "", nil))
+			}
+		}
+		return Case{Ops: ops, Tag: "nobody"}
 	case x < 6: // decision table: one (method, content type), all body kinds
 		m, ct := genMethod(r), genCType(r)
 		ops := probeOps(m, ct, genValidator(r))
+		ops = append(ops, bindLineC(r.Pick(bodyCarriers[1:]), r.Pick(autoApis), genValidator(r), m, ct, genQueryString(r), "", nil))
 		tag := "table-query"
 		if m == "POST" || m == "PUT" || m == "PATCH" {
 			tag = "table-body"
@@ -1297,7 +1453,13 @@ func (bindEngine) Gen(r *Rand, tier string) Case {
 					}
 				}
 			}
-			ops = append(ops, bindLine(api, genValidator(r), m, ct, genQueryString(r), body, hdr))
+			carrier := "rd"
+			if body == "" && r.Chance(2, 3) {
+				carrier = r.Pick(bodyCarriers)
+			} else if r.Chance(1, 4) {
+				carrier = r.Pick([]string{"nop", "newreq", "wire"})
+			}
+			ops = append(ops, bindLineC(carrier, api, genValidator(r), m, ct, genQueryString(r), body, hdr))
 		}
 		return Case{Ops: ops, Tag: "values"}
 	case x < 14: // malformed: arbitrary bytes as body and query against every source
